@@ -8,7 +8,8 @@ import implobs
 from gens.programs import Opts, Gen
 from props import funcs_common as FC
 
-THEOREMS = ['plus_minus_same', 'do_while_is_while', 'empty_statement_is_skip', 'sem_square_no_infty', 'sem_seq_skip', 'sem_seq_singleton', 'sem_rename']
+THEOREMS = ['plus_minus_same', 'do_while_is_while', 'empty_statement_is_skip', 'sem_square_no_infty', 'sem_seq_skip', 'sem_seq_singleton', 'sem_rename',
+            'verdict_depends_only_on_reading', 'verdict_invariant_under_renaming', 'derivable_matrices_depend_only_on_reading']
 RULE = ('each generated / corpus function and a transformed twin are analysed by the real code (both fin modes): '
         'injective renaming that reverses the sorted order of the variables, + replaced by -, redundant braces and '
         'empty statements inserted, while written as do-while, two functions of a file swapped; compared: verdict, '
